@@ -89,15 +89,7 @@ def analyse(P):
                             statics[s_].loads.append((inst, b, node))
                     elif cp == ATOMIC_STORE:
                         ok = True
-                        srcs = sources(inst, node['args'][1])
-                        fns, unknown = [], []
-                        for sr in srcs:
-                            if sr[0] == 'const':
-                                f = fn_const_instance(P, sr[1])
-                                if f:
-                                    fns.append(f)
-                                    continue
-                            unknown.append(sr[0])
+                        fns, unknown = stored_fn_items(P, inst, node['args'][1])
                         for s_ in sts:
                             statics[s_].stores.append((inst, b, node, fns, unknown))
                 if not ok:
@@ -105,6 +97,28 @@ def analyse(P):
                         if s_ in statics:
                             statics[s_].bad_uses.append((inst, b, f'use of static reference as {role} of {node.get("k")}'))
     return statics
+
+
+def stored_fn_items(P, inst, op, depth=0):
+    """function items that can flow into operand `op`: constants on its copy/cast chain, and -- through a call of a
+    crate-local helper (a selection ladder written as its own function) -- whatever that helper can return"""
+    fns, unknown = [], []
+    for sr in sources(inst, op):
+        if sr[0] == 'const':
+            f = fn_const_instance(P, sr[1])
+            if f:
+                fns.append(f)
+                continue
+        if sr[0] == 'call' and depth < 3:
+            callee = P.instances.get(sr[2]['callee'].get('inst') or '')
+            if callee is not None and callee.local and callee.has_body:
+                f2, u2 = stored_fn_items(P, callee, 0, depth + 1)
+                if f2 or u2:
+                    fns += f2
+                    unknown += u2
+                    continue
+        unknown.append(sr[0])
+    return fns, unknown
 
 
 def fn_signature(P, callee):
